@@ -1,6 +1,7 @@
 import SpoxModel.Lemmas.Prog
 import SpoxModel.Lemmas.ProgRename
 import SpoxModel.Lemmas.ProgUsed
+import SpoxModel.Lemmas.ProgRequest
 import SpoxModel.Generated.C01Entry
 import SpoxModel.Generated.C01Variadic
 import SpoxModel.Model.Containers
@@ -218,6 +219,98 @@ theorem dropUnused_idempotent (prog : List PNode) (main : PGraph) :
     dropUnused prog (dropUnused prog main) = dropUnused prog main := by
   unfold dropUnused usedArgs
   simp only [List.filter_filter, Bool.and_self]
+
+/-! ## Round 10: the needed part alone decides the values; other requests over the same program -/
+
+/-- **What else was constructed, where and in which order is irrelevant — with an executable hypothesis.**
+    `written_differently_same_values` asked for *some* dataflow-closed set `D`; here `D` is computed: it is
+    `needed` of the requested outputs, and closure is PROVED (`needed_closed`), not assumed.  If every node
+    reached from the requested outputs of `p` (through inputs and bodies at any depth) sits in `p'` at the
+    renamed position (`embedsNeeded`, a `Bool`), then whatever else `p` and `p'` contain — unrequested
+    constructions older, newer or in between, different in the two programs —, any two accepted emissions
+    compute the same outputs on the same inputs. -/
+theorem needed_part_decides_values (S : Sem Val) (p p' : List PNode) (hwf : WF p) (hwf' : WF p')
+    (σ : Nat → Nat) (hσ : ∀ x y, σ x = σ y → x = y) (main : PGraph)
+    (hemb : embedsNeeded p p' σ (main.results.map (·.node)) = true)
+    (e e' : EGraph) (hv : validG p e main [] = true)
+    (hv' : validG p' e' (mapGraph σ main) [] = true) (vals : List Val) :
+    evalG S p e (fun _ => none) vals = evalG S p' e' (fun _ => none) vals := by
+  apply written_differently_same_values S p p' hwf hwf' σ hσ
+    (fun k => k ∈ needed p (main.results.map (·.node))) _ main _ e e' hv hv' vals
+  · exact embedsNeeded_spec p p' hwf σ _ hemb
+  · intro r hr
+    exact needed_mono p _ _ (List.mem_map.mpr ⟨r, hr, rfl⟩)
+
+/-- The same at the level of the direct denotation (no emission involved), and with the bindings compared on
+    the needed ids only: if the needed part of `p` sits in `p'` under `σ` and the binding of `p'` gives every
+    NEEDED id `σ a` the value `a` has in `p` (a binding is read at argument ids only; the hypothesis is stated for
+    all needed ids because no "read at arguments only" lemma exists yet), every requested value is the same —
+    whatever the arguments that are not needed are bound to in either program. -/
+theorem needed_part_decides_denotation (S : Sem Val) (p p' : List PNode) (hwf : WF p) (hwf' : WF p')
+    (σ : Nat → Nat) (hσ : ∀ x y, σ x = σ y → x = y) (results : List VarRef)
+    (hemb : embedsNeeded p p' σ (results.map (·.node)) = true) (b b' : Nat → Val)
+    (hb : ∀ a ∈ needed p (results.map (·.node)), b' (σ a) = b a) :
+    results.map (fun r => denote S p' b' (mapRef σ r)) = results.map (denote S p b) := by
+  rw [← denote_congr_needed S p hwf results (fun a => b' (σ a)) b hb]
+  apply List.map_congr_left
+  intro r hr
+  exact creation_order_irrelevant S p p' hwf hwf' σ hσ (fun k => k ∈ needed p (results.map (·.node)))
+    (embedsNeeded_spec p p' hwf σ _ hemb) (fun a => b' (σ a)) b' (fun _ => rfl) r
+    (needed_mono p _ _ (List.mem_map.mpr ⟨r, hr, rfl⟩))
+
+/-- The same with every hypothesis executable: the renaming is a finite table (`sigmaOf`, injective by
+    `sigmaOk`), well-formedness by `wfCheck` — the form the driver evaluates on real runs. -/
+theorem needed_part_decides_values_checked (S : Sem Val) (p p' : List PNode) (tbl : List Nat)
+    (bound : Nat) (main : PGraph) (hwf : wfCheck p = true) (hwf' : wfCheck p' = true)
+    (hσ : sigmaOk tbl bound = true)
+    (hemb : embedsNeeded p p' (sigmaOf tbl bound) (main.results.map (·.node)) = true)
+    (e e' : EGraph) (hv : validG p e main [] = true)
+    (hv' : validG p' e' (mapGraph (sigmaOf tbl bound) main) [] = true) (vals : List Val) :
+    evalG S p e (fun _ => none) vals = evalG S p' e' (fun _ => none) vals :=
+  needed_part_decides_values S p p' (wfCheck_sound _ hwf) (wfCheck_sound _ hwf') _
+    (sigmaOf_injective tbl bound hσ) main hemb e e' hv hv' vals
+
+/-- **Another request over the same program** (a further `build` over the same Python objects: more / fewer /
+    other outputs, in another order; the inputs handed over in another order).  Two accepted emissions — of
+    different requests, hence in general with different scope placement and order — give the same value to every
+    output both requests contain, when fed the same (input, value) pairs in whatever order. -/
+theorem other_request_same_values (S : Sem Val) (prog : List PNode) (hwf : WF prog)
+    (args₁ args₂ : List Nat) (rs₁ rs₂ : List VarRef) (e₁ e₂ : EGraph)
+    (h₁ : validG prog e₁ ⟨args₁, rs₁⟩ [] = true) (h₂ : validG prog e₂ ⟨args₂, rs₂⟩ [] = true)
+    (vals₁ vals₂ : List Val) (hl₁ : args₁.length = vals₁.length) (hl₂ : args₂.length = vals₂.length)
+    (hnd : args₁.Nodup) (hp : (args₁.zip vals₁).Perm (args₂.zip vals₂))
+    (i j : Nat) (hij : rs₁[i]? = rs₂[j]?) :
+    (evalG S prog e₁ (fun _ => none) vals₁).map (·[i]?)
+      = (evalG S prog e₂ (fun _ => none) vals₂).map (·[j]?) := by
+  rw [valid_sound S prog hwf e₁ _ h₁ (fun _ => default) vals₁,
+      valid_sound S prog hwf e₂ _ h₂ (fun _ => default) vals₂]
+  simp only [Option.map_some, denoteG, List.getElem?_map]
+  rw [updArgs_perm (fun _ => default) args₁ args₂ vals₁ vals₂ hl₁ hl₂ hnd hp, hij]
+
+/-- In particular: asking for more (or other) outputs besides, or listing them in another order, changes no
+    requested value (same inputs, same order). -/
+theorem more_outputs_irrelevant (S : Sem Val) (prog : List PNode) (hwf : WF prog)
+    (args : List Nat) (rs₁ rs₂ : List VarRef) (e₁ e₂ : EGraph)
+    (h₁ : validG prog e₁ ⟨args, rs₁⟩ [] = true) (h₂ : validG prog e₂ ⟨args, rs₂⟩ [] = true)
+    (vals : List Val) (i j : Nat) (hij : rs₁[i]? = rs₂[j]?) :
+    (evalG S prog e₁ (fun _ => none) vals).map (·[i]?)
+      = (evalG S prog e₂ (fun _ => none) vals).map (·[j]?) := by
+  rw [valid_sound S prog hwf e₁ _ h₁ (fun _ => default) vals,
+      valid_sound S prog hwf e₂ _ h₂ (fun _ => default) vals]
+  simp only [Option.map_some, denoteG, List.getElem?_map]
+  rw [hij]
+
+/-- The default build and the `drop_unused_inputs=True` build over the same program (the harness makes both
+    over the same Python objects): any accepted emission of each, the second fed only the used inputs, return
+    the same outputs. -/
+theorem default_and_drop_builds_agree (S : Sem Val) (prog : List PNode) (hwf : WF prog) (e e' : EGraph)
+    (main : PGraph) (hv : validG prog e main [] = true)
+    (hv' : validG prog e' (dropUnused prog main) [] = true) (vals : List Val) :
+    evalG S prog e' (fun _ => none)
+        (usedVals (needed prog (main.results.map (·.node))).contains main.args vals)
+      = evalG S prog e (fun _ => none) vals := by
+  rw [drop_unused_inputs_sound S prog hwf e' main hv' (fun _ => default) vals,
+      valid_sound S prog hwf e main hv (fun _ => default) vals]
 
 /-! ## Tie G: every way to build that the source offers is one the check exercises -/
 
@@ -466,5 +559,96 @@ example (e : EGraph) (args' : List Nat) (hv : validG deepU.nodes e ⟨args', dee
 example : validG deepU.nodes deepUDepth1 ⟨[0, 1, 2], [⟨11, 0⟩]⟩ [] = false := by decide
 example : evalG exSem deepU.nodes deepUDepth1 (fun _ => none) [2, 5, 1]
     ≠ some (denoteG exSem deepU.nodes (fun _ => 0) deepU.main [2, 5, 1, 7, 99]) := by decide
+
+/-! ### Round 10 non-vacuity -/
+
+/-- `nestedIf` written differently: an unrequested argument `w` created first, an unrequested `x * w` created
+    in between, everything else shifted.  0 w, 1 b, 2 c, 3 x, 4 y, 5 x*w, 6 x+y, 7 If c, 8 If b, 9 r + x. -/
+def nestedIfOther : Program where
+  nodes := [
+    ⟨.op 0, [some ⟨8, 0⟩, some ⟨3, 0⟩], []⟩,
+    ⟨.op 2, [some ⟨1, 0⟩], [⟨[], [⟨7, 0⟩]⟩, ⟨[], [⟨4, 0⟩]⟩]⟩,
+    ⟨.op 2, [some ⟨2, 0⟩], [⟨[], [⟨6, 0⟩]⟩, ⟨[], [⟨4, 0⟩]⟩]⟩,
+    ⟨.op 0, [some ⟨3, 0⟩, some ⟨4, 0⟩], []⟩,
+    ⟨.op 1, [some ⟨3, 0⟩, some ⟨0, 0⟩], []⟩,
+    ⟨.arg, [], []⟩, ⟨.arg, [], []⟩, ⟨.arg, [], []⟩, ⟨.arg, [], []⟩, ⟨.arg, [], []⟩]
+  main := ⟨[1, 2, 3, 4], [⟨9, 0⟩]⟩
+
+def nestedIfSigma : List Nat := [1, 2, 3, 4, 6, 7, 8, 9]
+
+/-- an accepted emission of the other program (here: `x + y` hoisted to the main graph) -/
+def nestedIfOtherEmission : EGraph :=
+  .mk [1, 2, 3, 4]
+    [.mk 6 [],
+     .mk 8 [.mk [] [.mk 7 [.mk [] [] [⟨6, 0⟩], .mk [] [] [⟨4, 0⟩]]] [⟨7, 0⟩], .mk [] [] [⟨4, 0⟩]],
+     .mk 9 []]
+    [⟨9, 0⟩]
+
+example : wfCheck nestedIfOther.nodes = true := by decide
+example : sigmaOk nestedIfSigma 100 = true := by decide
+example : mapGraph (sigmaOf nestedIfSigma 100) nestedIf.main = nestedIfOther.main := by decide
+example : embedsNeeded nestedIf.nodes nestedIfOther.nodes (sigmaOf nestedIfSigma 100)
+    (nestedIf.main.results.map (·.node)) = true := by decide
+example : validG nestedIfOther.nodes nestedIfOtherEmission nestedIfOther.main [] = true := by decide
+/-- the theorem instantiated: same outputs on all inputs, whatever `w` and `x * w` are -/
+example (vals : List Int) :
+    evalG exSem nestedIf.nodes nestedIfEmission (fun _ => none) vals
+      = evalG exSem nestedIfOther.nodes nestedIfOtherEmission (fun _ => none) vals :=
+  needed_part_decides_values_checked exSem nestedIf.nodes nestedIfOther.nodes nestedIfSigma 100 nestedIf.main
+    (by decide) (by decide) (by decide) (by decide) _ _ (by decide) (by decide) vals
+/-- a program in which a NEEDED node differs (`x * y` where `x + y` was) does not embed, and computes
+    another value -/
+def nestedIfChanged : List PNode :=
+  match nestedIfOther.nodes with
+  | a :: b :: c :: _ :: rest => a :: b :: c :: ⟨.op 1, [some ⟨3, 0⟩, some ⟨4, 0⟩], []⟩ :: rest
+  | l => l
+example : embedsNeeded nestedIf.nodes nestedIfChanged (sigmaOf nestedIfSigma 100)
+    (nestedIf.main.results.map (·.node)) = false := by decide
+example : evalG exSem nestedIfChanged nestedIfOtherEmission (fun _ => none) [1, 1, 10, 5] = some [60] := by
+  decide
+/-- a table with a repetition is refused -/
+example : sigmaOk [1, 2, 2] 100 = false := by decide
+
+/-- A second build over the same program: `x + y` requested as well and listed first, the inputs handed over
+    in the reverse order.  `x + y` must now be emitted in the main graph — another emission. -/
+def nestedIfSecondBuild : EGraph :=
+  .mk [3, 2, 1, 0]
+    [.mk 4 [],
+     .mk 6 [.mk [] [.mk 5 [.mk [] [] [⟨4, 0⟩], .mk [] [] [⟨3, 0⟩]]] [⟨5, 0⟩], .mk [] [] [⟨3, 0⟩]],
+     .mk 7 []]
+    [⟨4, 0⟩, ⟨7, 0⟩]
+example : validG nestedIf.nodes nestedIfSecondBuild ⟨[3, 2, 1, 0], [⟨4, 0⟩, ⟨7, 0⟩]⟩ [] = true := by decide
+example : evalG exSem nestedIf.nodes nestedIfSecondBuild (fun _ => none) [5, 10, 1, 1] = some [15, 25] := by
+  decide
+/-- the theorem instantiated: output 0 of the first build = output 1 of the second, for all inputs -/
+example (b c x y : Int) :
+    (evalG exSem nestedIf.nodes nestedIfEmission (fun _ => none) [b, c, x, y]).map (·[0]?)
+      = (evalG exSem nestedIf.nodes nestedIfSecondBuild (fun _ => none) [y, x, c, b]).map (·[1]?) :=
+  other_request_same_values exSem nestedIf.nodes (wfCheck_sound _ (by decide))
+    [0, 1, 2, 3] [3, 2, 1, 0] [⟨7, 0⟩] [⟨4, 0⟩, ⟨7, 0⟩] _ _ (by decide) (by decide)
+    [b, c, x, y] [y, x, c, b] rfl rfl (by decide)
+    (List.reverse_perm [(3, y), (2, x), (1, c), (0, b)]) 0 1 rfl
+
+/-- the default build of `deepU` (all five inputs listed) and its drop build agree -/
+def deepUDefault : EGraph :=
+  match deepUDropped with
+  | .mk _ body res => .mk [0, 1, 2, 3, 4] body res
+example : validG deepU.nodes deepUDefault deepU.main [] = true := by decide
+example (vals : List Int) :
+    evalG exSem deepU.nodes deepUDropped (fun _ => none)
+        (usedVals (needed deepU.nodes (deepU.main.results.map (·.node))).contains deepU.main.args vals)
+      = evalG exSem deepU.nodes deepUDefault (fun _ => none) vals :=
+  default_and_drop_builds_agree exSem deepU.nodes (wfCheck_sound _ (by decide)) _ _ deepU.main
+    (by decide) (by decide) vals
+
+/-- `needed_part_decides_denotation` instantiated: the bindings need to agree on the eight needed ids only (not on
+    `w`, whose value `b'` may choose freely) -/
+example (b b' : Nat → Int) (hb : ∀ a ∈ [0, 1, 2, 3, 4, 5, 6, 7], b' (sigmaOf nestedIfSigma 100 a) = b a) :
+    denote exSem nestedIfOther.nodes b' ⟨9, 0⟩ = denote exSem nestedIf.nodes b ⟨7, 0⟩ := by
+  have h := needed_part_decides_denotation exSem nestedIf.nodes nestedIfOther.nodes
+    (wfCheck_sound _ (by decide)) (wfCheck_sound _ (by decide)) _
+    (sigmaOf_injective nestedIfSigma 100 (by decide)) [⟨7, 0⟩] (by decide) b b'
+    (fun a ha => hb a (by revert a; decide))
+  simpa [mapRef, sigmaOf, nestedIfSigma] using h
 
 end C01
